@@ -143,6 +143,7 @@ func (e *Enc) call(x *ssa.Call) {
 		e.builtin(x, b, cc)
 		return
 	}
+	e.callSiteAsserts(x, cc)
 	// closures created in this function: inline
 	if mc, ok := e.closures()[c.Value]; ok {
 		fn := mc.Fn.(*ssa.Function)
@@ -463,6 +464,20 @@ func (e *Enc) contractCall(x *ssa.Call, callee *ssa.Function, ct *Contract, cc *
 			Goal: fmt.Sprintf("(=> %s %s)", reach, t), Src: "requires " + rq.Src + " [of " + ct.Key + "]"})
 		r.assume(fmt.Sprintf("(=> %s %s)", reach, t))
 	}
+	if r.nopanic {
+		if len(ct.NoPanic) == 0 && !ct.Functional && !isAccessorLike(ct) {
+			r.errorf("nopanic: callee %s (called from %s) carries no nopanic clause; its panics would be invisible here", ct.Key, e.fn.Name())
+		}
+		for i, np := range ct.NoPanic {
+			if np.E == nil {
+				continue
+			}
+			t := env.boolExpr(np.E)
+			r.addObl(&Obligation{Name: fmt.Sprintf("%s#pre@%s.nopanic%d", r.fnShort, ct.shortName(), i+1), Kind: "pre", Tags: np.Tags,
+				Goal: fmt.Sprintf("(=> %s %s)", reach, t), Src: "nopanic when " + np.Src + " [of " + ct.Key + "]"})
+			r.assume(fmt.Sprintf("(=> %s %s)", reach, t))
+		}
+	}
 	// havoc modifies
 	e.havocModifies(ct, env, pre)
 	// results
@@ -634,3 +649,57 @@ func (e *Enc) setStateRaw(name, term string) {
 }
 
 func functionalName(ct *Contract) string { return "fn_" + mangle(pkgShort(ct.Pkg)+"_"+ct.shortName()) }
+
+// callSiteAsserts: "at Callee assert expr" clauses of the function under verification. The expression sees the callee's
+// parameter names bound to the actual arguments, the caller's parameters and local variables by source name, and the state
+// at the call.
+func (e *Enc) callSiteAsserts(x *ssa.Call, cc *callCtx) {
+	if e.depth != 0 || e.ct == nil || len(e.ct.CallAsserts) == 0 {
+		return
+	}
+	var callee *ssa.Function
+	if cc.c.IsInvoke() {
+		callee = e.r.v.resolveInvoke(e, cc.c)
+	} else {
+		callee = cc.c.StaticCallee()
+	}
+	name := cc.c.Method.Name()
+	if !cc.c.IsInvoke() {
+		if callee == nil {
+			return
+		}
+		name = callee.Name()
+	}
+	for _, ca := range e.ct.CallAsserts {
+		if ca.Callee != name {
+			continue
+		}
+		key := "callsite:" + name
+		e.r.siteCnt[key]++
+		n := e.r.siteCnt[key]
+		if ca.Site != 0 && ca.Site != n {
+			continue
+		}
+		extra := map[string]SV{}
+		if callee != nil {
+			for i, p := range callee.Params {
+				if i < len(cc.args) {
+					extra[p.Name()] = SV{t: e.val(cc.args[i]), sort: e.g().SortOf(p.Type()), gt: p.Type()}
+				}
+			}
+		}
+		env := e.specEnv(e.cur, extra)
+		env.errCtx = "call-site assert at " + name
+		t := env.boolExpr(ca.C.E)
+		nm := ca.C.Name()
+		if nm == "" {
+			nm = "wf"
+		}
+		e.r.addObl(&Obligation{Name: fmt.Sprintf("%s#assert@%s.%s", e.r.fnShort, name, nm), Kind: "assert", Tags: ca.C.Tags,
+			Goal: fmt.Sprintf("(=> %s %s)", e.reach[e.cur], t), Src: "at " + name + " assert " + ca.C.Src})
+	}
+}
+
+// isAccessorLike: scaffolded accessors generated by the "accessor" macro are verified with nopanic semantics implicitly
+// (their bodies contain no panicking operation other than store access, see verify.go: accessors are always nopanic).
+func isAccessorLike(ct *Contract) bool { return ct.Accessor }
